@@ -34,6 +34,7 @@ func runC01(p *core.Prog, r *core.Report) {
 	c01R10(p, r)
 	c01R11(p, r)
 	c01R12(p, r)
+	c01R13(p, r)
 }
 
 // c01R11: the error a blob read ended with reaches whoever asked for the blob. A deferred clean-up
@@ -1563,4 +1564,75 @@ func embeddedRoot(n *types.Named, pth string) bool {
 		}
 	}
 	return false
+}
+
+// c01R13: the comparisons of R2 end a mismatching stream with an error. That error is the only thing
+// that tells the consumer apart from a clean read, so it has to be looked at: a copy out of a blob
+// reader whose error result is never used (assigned to a shadowed variable, to `_`, or dropped) turns
+// every mismatch into success.
+func c01R13(p *core.Prog, r *core.Report) {
+	const rule = "C01.R13"
+	r.Rule(rule, "the error that ends a blob's stream is heard: for every io.Copy / io.CopyBuffer / io.ReadAll in the module whose source is a reader of types/blob, the error result is used (tested, returned, wrapped or passed on)", 3)
+	isBlobSrc := func(v ssa.Value) bool {
+		v = underIface(v)
+		if n := core.NamedOf(v.Type()); n != nil && n.Obj().Pkg() != nil && n.Obj().Pkg().Path() == modPath("types/blob") {
+			return true
+		}
+		for _, o := range core.Origins(v, core.SliceOpts{}) {
+			if o.Kind == core.OCall {
+				if n := core.NamedOf(o.Call.Type()); n != nil && n.Obj().Pkg() != nil && n.Obj().Pkg().Path() == modPath("types/blob") {
+					return true
+				}
+				if tup, ok := o.Call.Type().(*types.Tuple); ok && o.Res >= 0 && o.Res < tup.Len() {
+					if n := core.NamedOf(tup.At(o.Res).Type()); n != nil && n.Obj().Pkg() != nil && n.Obj().Pkg().Path() == modPath("types/blob") {
+						return true
+					}
+				}
+			}
+		}
+		return false
+	}
+	n := 0
+	for _, fn := range p.ModFuncs {
+		if fn.Synthetic != "" || len(fn.Blocks) == 0 {
+			continue
+		}
+		lab := labeler{}
+		core.Calls(fn, func(c ssa.CallInstruction) {
+			cal := core.Callee(c)
+			if cal == nil {
+				return
+			}
+			srcIdx := -1
+			switch {
+			case core.IsFunc(cal, "io", "Copy"), core.IsFunc(cal, "io", "CopyBuffer"):
+				srcIdx = 1
+			case core.IsFunc(cal, "io", "ReadAll"):
+				srcIdx = 0
+			}
+			if srcIdx < 0 || srcIdx >= len(c.Common().Args) || !isBlobSrc(c.Common().Args[srcIdx]) {
+				return
+			}
+			n++
+			used := false
+			if call, ok := c.(*ssa.Call); ok && call.Referrers() != nil {
+				for _, u := range *call.Referrers() {
+					ex, ok := u.(*ssa.Extract)
+					if !ok || !isErr(ex.Type()) || ex.Referrers() == nil {
+						continue
+					}
+					for _, uu := range *ex.Referrers() {
+						if _, isDbg := uu.(*ssa.DebugRef); !isDbg {
+							used = true
+						}
+					}
+				}
+			}
+			r.Check(used, rule, p.FuncName(fn), lab.next(cal.Name()+" from a blob reader"), p.Pos(c.Pos()),
+				"the error result of this read of a blob is never used (dropped, assigned to `_` or to a variable that is not read again): a digest or size mismatch reported at the end of the stream goes unnoticed and the bytes are kept")
+		})
+	}
+	if n == 0 {
+		r.MissingAnchor(rule, "copies out of blob readers")
+	}
 }
